@@ -488,6 +488,7 @@ func c20Queries(L *lab.Lab) []c20Query {
 	}
 	pr := &query.PageRequest{Limit: 3, CountTotal: true}
 	a1 := L.Accts[1].Addr.String()
+	a2 := L.Accts[2].Addr.String()
 	return []c20Query{
 		mk("/mainchain.enterprise.v1.Query/EnterpriseUndPurchaseOrders", &enttypes.QueryEnterpriseUndPurchaseOrdersRequest{Pagination: pr}),
 		mk("/mainchain.enterprise.v1.Query/EnterpriseUndPurchaseOrders", &enttypes.QueryEnterpriseUndPurchaseOrdersRequest{Pagination: &query.PageRequest{Limit: 100}, Status: enttypes.StatusCompleted}),
@@ -498,6 +499,43 @@ func c20Queries(L *lab.Lab) []c20Query {
 		mk("/mainchain.stream.v1.Query/Streams", &streamtypes.QueryStreamsRequest{Pagination: &query.PageRequest{Limit: 100}}),
 		mk("/mainchain.stream.v1.Query/AllStreamsForSender", &streamtypes.QueryAllStreamsForSenderRequest{SenderAddr: a1, Pagination: &query.PageRequest{Limit: 100}}),
 		mk("/mainchain.enterprise.v1.Query/EnterpriseUndPurchaseOrder", &enttypes.QueryEnterpriseUndPurchaseOrderRequest{PurchaseOrderId: L.Opts.PoStartID}),
+		// every other endpoint of the four query services (point queries included): handlers may
+		// share process memory, and only calls that really overlap expose that to the race detector
+		mk("/mainchain.enterprise.v1.Query/Params", &enttypes.QueryParamsRequest{}),
+		mk("/mainchain.enterprise.v1.Query/LockedUndByAddress", &enttypes.QueryLockedUndByAddressRequest{Owner: a1}),
+		mk("/mainchain.enterprise.v1.Query/LockedUndByAddress", &enttypes.QueryLockedUndByAddressRequest{Owner: a2}),
+		mk("/mainchain.enterprise.v1.Query/TotalLocked", &enttypes.QueryTotalLockedRequest{}),
+		mk("/mainchain.enterprise.v1.Query/TotalUnlocked", &enttypes.QueryTotalUnlockedRequest{}),
+		mk("/mainchain.enterprise.v1.Query/EnterpriseSupply", &enttypes.QueryEnterpriseSupplyRequest{}),
+		mk("/mainchain.enterprise.v1.Query/SupplyOf", &enttypes.QuerySupplyOfRequest{Denom: lab.Denom}),
+		mk("/mainchain.enterprise.v1.Query/SupplyOfOverwrite", &enttypes.QuerySupplyOfRequest{Denom: lab.Denom2}),
+		mk("/mainchain.enterprise.v1.Query/TotalSupplyOverwrite", &enttypes.QueryTotalSupplyRequest{Pagination: &query.PageRequest{Limit: 2, Reverse: true}}),
+		mk("/mainchain.enterprise.v1.Query/Whitelisted", &enttypes.QueryWhitelistedRequest{Address: a1}),
+		mk("/mainchain.enterprise.v1.Query/EnterpriseAccount", &enttypes.QueryEnterpriseAccountRequest{}),
+		mk("/mainchain.enterprise.v1.Query/TotalSpentEFUND", &enttypes.QueryTotalSpentEFUNDRequest{}),
+		mk("/mainchain.enterprise.v1.Query/SpentEFUNDByAddress", &enttypes.QuerySpentEFUNDByAddressRequest{Address: a1}),
+		mk("/mainchain.enterprise.v1.Query/EnterpriseUndPurchaseOrders", &enttypes.QueryEnterpriseUndPurchaseOrdersRequest{Pagination: &query.PageRequest{Limit: 2, Offset: 1, CountTotal: true}, Purchaser: a1}),
+		mk("/mainchain.wrkchain.v1.Query/Params", &wrkchaintypes.QueryParamsRequest{}),
+		mk("/mainchain.wrkchain.v1.Query/WrkChain", &wrkchaintypes.QueryWrkChainRequest{WrkchainId: L.Opts.WrkStartID}),
+		mk("/mainchain.wrkchain.v1.Query/WrkChain", &wrkchaintypes.QueryWrkChainRequest{WrkchainId: L.Opts.WrkStartID + 1}),
+		mk("/mainchain.wrkchain.v1.Query/WrkChainBlock", &wrkchaintypes.QueryWrkChainBlockRequest{WrkchainId: L.Opts.WrkStartID, Height: 1}),
+		mk("/mainchain.wrkchain.v1.Query/WrkChainBlock", &wrkchaintypes.QueryWrkChainBlockRequest{WrkchainId: L.Opts.WrkStartID, Height: 2}),
+		mk("/mainchain.wrkchain.v1.Query/WrkChainStorage", &wrkchaintypes.QueryWrkChainStorageRequest{WrkchainId: L.Opts.WrkStartID}),
+		mk("/mainchain.wrkchain.v1.Query/WrkChainsFiltered", &wrkchaintypes.QueryWrkChainsFilteredRequest{Pagination: &query.PageRequest{Limit: 2, Reverse: true}, Owner: a2}),
+		mk("/mainchain.beacon.v1.Query/Params", &beacontypes.QueryParamsRequest{}),
+		mk("/mainchain.beacon.v1.Query/Beacon", &beacontypes.QueryBeaconRequest{BeaconId: L.Opts.BeaconStartID}),
+		mk("/mainchain.beacon.v1.Query/Beacon", &beacontypes.QueryBeaconRequest{BeaconId: L.Opts.BeaconStartID + 1}),
+		mk("/mainchain.beacon.v1.Query/BeaconTimestamp", &beacontypes.QueryBeaconTimestampRequest{BeaconId: L.Opts.BeaconStartID, TimestampId: 1}),
+		mk("/mainchain.beacon.v1.Query/BeaconTimestamp", &beacontypes.QueryBeaconTimestampRequest{BeaconId: L.Opts.BeaconStartID, TimestampId: 2}),
+		mk("/mainchain.beacon.v1.Query/BeaconStorage", &beacontypes.QueryBeaconStorageRequest{BeaconId: L.Opts.BeaconStartID}),
+		mk("/mainchain.beacon.v1.Query/BeaconsFiltered", &beacontypes.QueryBeaconsFilteredRequest{Pagination: &query.PageRequest{Limit: 100}}),
+		mk("/mainchain.stream.v1.Query/Params", &streamtypes.QueryParamsRequest{}),
+		mk("/mainchain.stream.v1.Query/CalculateFlowRate", &streamtypes.QueryCalculateFlowRateRequest{Coin: "1000000nund", Period: streamtypes.StreamPeriodDay, Duration: 3}),
+		mk("/mainchain.stream.v1.Query/AllStreamsForReceiver", &streamtypes.QueryAllStreamsForReceiverRequest{ReceiverAddr: a2, Pagination: &query.PageRequest{Limit: 100}}),
+		mk("/mainchain.stream.v1.Query/AllStreamsForReceiver", &streamtypes.QueryAllStreamsForReceiverRequest{ReceiverAddr: a1, Pagination: &query.PageRequest{Limit: 1, CountTotal: true}}),
+		mk("/mainchain.stream.v1.Query/StreamByReceiverSender", &streamtypes.QueryStreamByReceiverSenderRequest{ReceiverAddr: a2, SenderAddr: a1}),
+		mk("/mainchain.stream.v1.Query/StreamByReceiverSender", &streamtypes.QueryStreamByReceiverSenderRequest{ReceiverAddr: a1, SenderAddr: a2}),
+		mk("/mainchain.stream.v1.Query/StreamReceiverSenderCurrentFlow", &streamtypes.QueryStreamReceiverSenderCurrentFlowRequest{ReceiverAddr: a2, SenderAddr: a1}),
 	}
 }
 
